@@ -43,6 +43,7 @@ func leafKinds() []LeafCfg {
 		{Retryable: true, Fb: "custom", PrepS: d, ExecS: d, PostS: d, Impl: "base"},
 		{Retryable: true, Fb: "pass", PrepS: "absent", ExecS: d, PostS: d},
 		{Retryable: true, Fb: "pass", PrepS: d, ExecS: d, PostS: "absent"},
+		{Retryable: true, Fb: "pass", PrepS: d, ExecS: d, PostS: d, Impl: "override"},
 	}
 	for _, st := range [][3]string{{"res", "res", "res"}, {"any", "any", "any"}, {"res", "any", "res"}, {"any", "res", "any"},
 		{"absent", "res", "res"}, {"any", "any", "absent"}} {
@@ -151,6 +152,9 @@ func (t *tokGen) leafScript(n, v int, prepOK bool, execMask uint, attempts int, 
 func postStr(t *tokGen, kind int, action string) string {
 	switch kind {
 	case 0:
+		if t.r.chance(4) { // a blank (but not empty) action: an ordinary action like any other
+			return "=" + t.r.pick([]string{" ", "\n", "\t "})
+		}
 		return "=" + action
 	case 1:
 		return "="
